@@ -3,6 +3,7 @@
   and the loops of HDPrivateKey.traverse / HDPublicKey.traverse.
 -/
 import Buidl.Model.HD
+import Buidl.Spec.BIP32
 import Buidl.Proofs.Bytes
 namespace Buidl.HD
 open Buidl Buidl.EC Buidl.PyStr
@@ -208,5 +209,463 @@ theorem pub_traverseF08a_M (p : HDPub) (rest : Str) : p.traverseF08a hmac h160 (
   simp [HDPub.traverseF08a, startsWith, List.isPrefixOf]
 
 end walk
+
+/-! ## public / private consistency, relative to the one group-law fact it needs
+    (`Buidl.Proofs.HD.groupAdd` proves it from Buidl.Proofs.Secp256k1) -/
+
+/-- `((a + b) mod N)·G = b·G + a·G` with the code's operators -/
+def GroupAdd : Prop :=
+  ∀ a b : Nat, smul (((a + b) % N : Nat) : Int) G = sadd (smul (b : Int) G) (smul (a : Int) G)
+
+theorem mkSecret_some {s t : Nat} (h : mkSecret s = some t) : t = s ∧ 1 ≤ s ∧ s < N := by
+  unfold mkSecret at h
+  split at h
+  · cases h
+  · split at h
+    · cases h
+    · cases h
+      refine ⟨rfl, by omega, ?_⟩
+      have : 0 < N := by decide
+      omega
+
+theorem mkSecret_of_range {s : Nat} (h1 : 1 ≤ s) (h2 : s < N) : mkSecret s = some s := by
+  unfold mkSecret
+  have : 0 < N := by decide
+  rw [if_neg (by omega), if_neg (by omega)]
+
+theorem mkSecret_none_of_lt {s : Nat} (h : mkSecret s = none) (h2 : s < N) : s = 0 := by
+  by_cases h1 : 1 ≤ s
+  · rw [mkSecret_of_range h1 h2] at h; cases h
+  · omega
+
+section consistency
+variable (hmac : Bytes → Bytes → Bytes) (h160 : Bytes → Bytes)
+
+theorem priv_childData_normal (k : HDPriv) (i : Nat) (hi : i < 2 ^ 31) :
+    k.childData i = (sec (smul (k.secret : Int) G) true).bind fun a =>
+      (natToBE i Gen.hdPrivChildIndexW).bind fun b => some (a ++ b) := by
+  have hc1 : cmpOp Gen.hdPrivHardOp i Gen.hdPrivHardT = false := by
+    simp [cmpOp, Gen.hdPrivHardOp, Gen.hdPrivHardT]; omega
+  simp [HDPriv.childData, hc1]
+
+theorem pub_child_normal (p : HDPub) (i : Nat) (hi : i < 2 ^ 31) :
+    p.child hmac h160 i = (sec p.point true).bind fun a =>
+      (natToBE i Gen.hdPubChildIndexW).bind fun b => p.childFromData hmac h160 i (a ++ b) := by
+  have hc2 : cmpOp Gen.hdPubHardOp i Gen.hdPubHardT = false := by
+    simp [cmpOp, Gen.hdPubHardOp, Gen.hdPubHardT]; omega
+  simp [HDPub.child, hc2]
+
+theorem child_pub_consistent_rel (hg : GroupAdd) (k : HDPriv) (i : Nat) (hi : i < 2 ^ 31) (k' : HDPriv)
+    (h : k.child hmac h160 i = some k') : k.pub.child hmac h160 i = some k'.pub := by
+  rw [HDPriv.child, priv_childData_normal k i hi] at h
+  simp only [HDPriv.childFromData, Option.bind_eq_some_iff] at h
+  obtain ⟨d, ⟨a, ha, b, hb, hd⟩, s', hs', fp, hfp, hk⟩ := h
+  cases hd; cases hk
+  obtain ⟨rfl, -, -⟩ := mkSecret_some hs'
+  have hfp' : HDPub.fingerprint h160 k.pub = some fp := hfp
+  have hb' : natToBE i Gen.hdPubChildIndexW = some b := hb
+  have ha' : sec k.pub.point true = some a := ha
+  rw [pub_child_normal hmac h160 k.pub i hi]
+  simp only [ha', hb', hfp', HDPub.childFromData, Option.bind_some]
+  simp only [HDPriv.pub, saddInt]
+  rw [hg]
+
+/-- the zero-key case: the private derivation refuses (PrivateKey(0) raises) while the public one
+    returns the point at infinity -/
+theorem child_pub_zero_key_rel (hg : GroupAdd) (k : HDPriv) (i : Nat) (hi : i < 2 ^ 31) (q : HDPub)
+    (hpriv : k.child hmac h160 i = none) (hpub : k.pub.child hmac h160 i = some q) : q.point = .inf := by
+  rw [pub_child_normal hmac h160 k.pub i hi] at hpub
+  simp only [HDPub.childFromData, Option.bind_eq_some_iff] at hpub
+  obtain ⟨a, ha, b, hb, fp, hfp, hq⟩ := hpub
+  cases hq
+  have ha' : sec (smul (k.secret : Int) G) true = some a := ha
+  have hb' : natToBE i Gen.hdPrivChildIndexW = some b := hb
+  have hfp' : HDPriv.fingerprint h160 k = some fp := hfp
+  rw [HDPriv.child, priv_childData_normal k i hi] at hpriv
+  simp only [ha', hb', hfp', HDPriv.childFromData, Option.bind_some] at hpriv
+  have hz : mkSecret ((beToNat (List.take Gen.hdPrivChildKeyHi (hmac k.chainCode (a ++ b))) + k.secret) % N) = none := by
+    cases hm : mkSecret ((beToNat (List.take Gen.hdPrivChildKeyHi (hmac k.chainCode (a ++ b))) + k.secret) % N) with
+    | none => rfl
+    | some s => rw [hm] at hpriv; simp at hpriv
+  have h0 := mkSecret_none_of_lt hz (Nat.mod_lt _ (by decide))
+  have := hg (beToNat (List.take Gen.hdPrivChildKeyHi (hmac k.chainCode (a ++ b)))) k.secret
+  rw [h0] at this
+  simp only [HDPriv.pub, saddInt]
+  rw [← this]
+  rfl
+
+end consistency
+
+/-! ## byte-level facts used by the codec and the specification -/
+
+theorem natToLE'_succ_snoc (w n : Nat) :
+    natToLE' (w + 1) n = natToLE' w n ++ [UInt8.ofNat (n / 256 ^ w % 256)] := by
+  induction w generalizing n with
+  | zero => simp [natToLE']
+  | succ w ih =>
+    rw [natToLE', ih (n / 256), natToLE']
+    simp only [List.cons_append]
+    congr 3
+    rw [Nat.div_div_eq_div_mul, Nat.pow_succ, Nat.mul_comm]
+
+theorem natToBE'_succ_of_lt {w n : Nat} (h : n < 256 ^ w) : natToBE' (w + 1) n = 0 :: natToBE' w n := by
+  unfold natToBE'
+  rw [natToLE'_succ_snoc, List.reverse_append]
+  have : n / 256 ^ w = 0 := Nat.div_eq_of_lt h
+  simp [this]
+
+theorem sec_eq_serP (X : Pt) : sec X true = Spec.BIP32.serP X := by
+  cases X with
+  | inf => rfl
+  | aff x y =>
+    simp only [sec, Spec.BIP32.serP, Spec.BIP32.ser256, if_true]
+    rcases Nat.mod_two_eq_zero_or_one y with h | h <;> simp [h]
+
+/-! ## the model against Buidl.Spec.BIP32 -/
+
+section spec
+variable (hmac : Bytes → Bytes → Bytes) (h160 : Bytes → Bytes)
+
+theorem N_lt : N < 256 ^ 32 := by decide
+theorem spec_n_eq : Spec.BIP32.n = N := by decide
+
+/-- the HMAC input of HDPrivateKey.child is the one of the BIP -/
+theorem priv_childData_eq_spec (k : HDPriv) (i : Nat) (hs : k.secret < N) (hi : i < 2 ^ 32) :
+    k.childData i
+    = (if i ≥ 2 ^ 31 then some (0x00 :: Spec.BIP32.ser256 k.secret ++ Spec.BIP32.ser32 i)
+       else (Spec.BIP32.serP (Spec.BIP32.point k.secret)).map (· ++ Spec.BIP32.ser32 i)) := by
+  have hN := N_lt
+  have h33 : k.secret < 256 ^ 33 := by
+    have : (256:Nat) ^ 32 < 256 ^ 33 := by decide
+    omega
+  have h4 : i < 256 ^ 4 := by
+    have : (256:Nat) ^ 4 = 2 ^ 32 := by decide
+    omega
+  unfold HDPriv.childData
+  by_cases h : i ≥ 2 ^ 31
+  · have hc : cmpOp Gen.hdPrivHardOp i Gen.hdPrivHardT = true := by
+      simp [cmpOp, Gen.hdPrivHardOp, Gen.hdPrivHardT]; omega
+    rw [if_pos hc, if_pos h]
+    simp only [Gen.hdPrivChildSecretW, Gen.hdPrivChildIndexWHard, natToBE, h33, h4, if_true, Option.bind_some]
+    rw [natToBE'_succ_of_lt (by omega : k.secret < 256 ^ 32)]
+    rfl
+  · have hc : cmpOp Gen.hdPrivHardOp i Gen.hdPrivHardT = false := by
+      simp [cmpOp, Gen.hdPrivHardOp, Gen.hdPrivHardT]; omega
+    rw [if_neg (by simp [hc]), if_neg h]
+    simp only [Gen.hdPrivChildIndexW, natToBE, h4, if_true, Option.bind_some, sec_eq_serP, Spec.BIP32.point]
+    cases Spec.BIP32.serP (smul (↑k.secret) G) <;> rfl
+
+theorem priv_child_eq_spec_rel (k : HDPriv) (i : Nat) (hs : k.secret < N) (hi : i < 2 ^ 32)
+    (hIL : ∀ d, beToNat ((hmac k.chainCode d).take 32) < Spec.BIP32.n)
+    (hpt : (sec (smul (k.secret : Int) G) true).isSome) :
+    (k.child hmac h160 i).map (fun k' => (k'.secret, k'.chainCode))
+      = (Spec.BIP32.CKDpriv hmac k.secret k.chainCode i).bind Spec.BIP32.Result.toOption := by
+  rw [HDPriv.child, priv_childData_eq_spec k i hs hi]
+  unfold Spec.BIP32.CKDpriv
+  simp only []
+  cases hd : (if i ≥ 2 ^ 31 then some (0x00 :: Spec.BIP32.ser256 k.secret ++ Spec.BIP32.ser32 i)
+       else (Spec.BIP32.serP (Spec.BIP32.point k.secret)).map (· ++ Spec.BIP32.ser32 i)) with
+  | none => simp
+  | some d =>
+    simp only [Option.bind_some, Option.map_some]
+    have hil := hIL d
+    obtain ⟨spt, hspt⟩ := Option.isSome_iff_exists.mp hpt
+    have hfp : HDPriv.fingerprint h160 k = some ((h160 spt).take Gen.hdFingerprintW) := by
+      simp [HDPriv.fingerprint, HDPub.fingerprint, HDPriv.pub, hspt]
+    simp only [HDPriv.childFromData, hfp, Option.bind_some, Spec.BIP32.parse256, Spec.BIP32.IL, Spec.BIP32.IR,
+      spec_n_eq, Gen.hdPrivChildKeyHi, Gen.hdPrivChildChainLo]
+    rw [spec_n_eq] at hil
+    by_cases hz : (beToNat (List.take 32 (hmac k.chainCode d)) + k.secret) % N = 0
+    · rw [hz]
+      simp [mkSecret, Spec.BIP32.Result.toOption]
+    · have hlt : (beToNat (List.take 32 (hmac k.chainCode d)) + k.secret) % N < N := Nat.mod_lt _ (by decide)
+      rw [mkSecret_of_range (by omega) hlt]
+      have : ¬ (beToNat (List.take 32 (hmac k.chainCode d)) ≥ N ∨
+          (beToNat (List.take 32 (hmac k.chainCode d)) + k.secret) % N = 0) := by
+        intro h; rcases h with h | h
+        · omega
+        · exact hz h
+      simp [this, Spec.BIP32.Result.toOption]
+
+theorem priv_child_fields (k k' : HDPriv) (i : Nat) (h : k.child hmac h160 i = some k') :
+    k'.depth = k.depth + 1 ∧ k'.childNumber = i ∧
+    some k'.parentFp = Spec.BIP32.fingerprint h160 (Spec.BIP32.point k.secret) ∧
+    k'.network = k.network ∧ k'.privVersion = k.privVersion ∧ k'.pubVersion = k.pubVersion := by
+  simp only [HDPriv.child, HDPriv.childFromData, Option.bind_eq_some_iff] at h
+  obtain ⟨d, -, s', -, fp, hfp, hk⟩ := h
+  cases hk
+  refine ⟨rfl, rfl, ?_, rfl, rfl, rfl⟩
+  simp only [HDPriv.fingerprint, HDPub.fingerprint, HDPriv.pub, sec_eq_serP] at hfp
+  simp only [Spec.BIP32.fingerprint, Spec.BIP32.point]
+  exact hfp.symm
+
+theorem fingerprint_eq_spec (p : HDPub) : p.fingerprint h160 = Spec.BIP32.fingerprint h160 p.point := by
+  simp only [HDPub.fingerprint, Spec.BIP32.fingerprint, sec_eq_serP]
+
+theorem pub_child_eq_spec_rel (p : HDPub) (i : Nat)
+    (hIL : ∀ d, beToNat ((hmac p.chainCode d).take 32) < Spec.BIP32.n)
+    (hK : ∀ d, saddInt p.point ((beToNat ((hmac p.chainCode d).take 32) : Nat) : Int) ≠ .inf)
+    (hcomm : ∀ a : Nat, sadd (smul (a : Int) G) p.point = sadd p.point (smul (a : Int) G)) :
+    (p.child hmac h160 i).map (fun q => (q.point, q.chainCode))
+      = (Spec.BIP32.CKDpub hmac p.point p.chainCode i).bind Spec.BIP32.Result.toOption := by
+  unfold Spec.BIP32.CKDpub
+  by_cases h : i ≥ 2 ^ 31
+  · rw [pub_child_hardened hmac h160 p i h, if_pos h]
+    rfl
+  · rw [if_neg h, pub_child_normal hmac h160 p i (by omega)]
+    have h4 : i < 256 ^ 4 := by
+      have : (256:Nat) ^ 4 = 2 ^ 32 := by decide
+      omega
+    simp only [Gen.hdPubChildIndexW, natToBE, h4, if_true, Option.bind_some, sec_eq_serP]
+    cases hsp : Spec.BIP32.serP p.point with
+    | none => simp
+    | some sp =>
+      have hfp : p.fingerprint h160 = some ((h160 sp).take Gen.hdFingerprintW) := by
+        simp [HDPub.fingerprint, sec_eq_serP, hsp]
+      simp only [Option.bind_some, Option.map_some, HDPub.childFromData, hfp, Spec.BIP32.ser32,
+        Spec.BIP32.parse256, Spec.BIP32.IL, Spec.BIP32.IR, Spec.BIP32.point, Gen.hdPubChildKeyHi, Gen.hdPubChildChainLo]
+      have hil := hIL (sp ++ natToBE' 4 i)
+      have hk := hK (sp ++ natToBE' 4 i)
+      simp only [hcomm]
+      have : ¬ (beToNat (List.take 32 (hmac p.chainCode (sp ++ natToBE' 4 i))) ≥ Spec.BIP32.n ∨
+          sadd p.point (smul (↑(beToNat (List.take 32 (hmac p.chainCode (sp ++ natToBE' 4 i))))) G) = Pt.inf) := by
+        intro h; rcases h with h | h
+        · omega
+        · exact hk h
+      simp [this, Spec.BIP32.Result.toOption, saddInt]
+
+theorem mkPriv_some_fields {s : Nat} {c fp : Bytes} {d cn : Nat} {net : String} {pv bv : Option Bytes} {k : HDPriv}
+    (h : mkPriv s c d fp cn net pv bv = some k) :
+    k.secret = s ∧ k.chainCode = c ∧ k.depth = d ∧ k.parentFp = fp ∧ k.childNumber = cn ∧ k.network = net := by
+  simp only [mkPriv, mkPub, Option.bind_eq_bind, Option.pure_def, Option.bind_eq_some_iff] at h
+  obtain ⟨v1, -, pub, ⟨v2, -, hp⟩, hk⟩ := h
+  cases hp; cases hk
+  exact ⟨rfl, rfl, rfl, rfl, rfl, rfl⟩
+
+theorem mkPriv_isSome (s : Nat) (c fp : Bytes) (d cn : Nat) (net : String) (pv bv : Option Bytes)
+    (hpv : (versionOr pv Gen.hdXprv net).isSome) (hbv : (versionOr bv Gen.hdXpub net).isSome) :
+    (mkPriv s c d fp cn net pv bv).isSome := by
+  obtain ⟨v1, h1⟩ := Option.isSome_iff_exists.mp hpv
+  obtain ⟨v2, h2⟩ := Option.isSome_iff_exists.mp hbv
+  simp [mkPriv, mkPub, h1, h2]
+
+theorem from_seed_eq_spec (seed : Bytes) (net : String) (pv bv : Option Bytes)
+    (hpv : (versionOr pv Gen.hdXprv net).isSome) (hbv : (versionOr bv Gen.hdXpub net).isSome) :
+    (fromSeed hmac seed net pv bv).map (fun k => (k.secret, k.chainCode, k.depth, k.parentFp, k.childNumber))
+      = (Spec.BIP32.master hmac seed).toOption.map (fun kc => (kc.1, kc.2, 0, [0, 0, 0, 0], 0)) := by
+  have hkey : Gen.hdSeedKey = Spec.BIP32.seedKey := by decide
+  simp only [fromSeed, Spec.BIP32.master, hkey, Gen.hdSeedKeyHi, Gen.hdSeedChainLo, Spec.BIP32.parse256,
+    Spec.BIP32.IL, Spec.BIP32.IR, spec_n_eq, Option.bind_eq_bind]
+  generalize hI : hmac Spec.BIP32.seedKey seed = I
+  by_cases hz : beToNat (List.take 32 I) = 0 ∨ beToNat (List.take 32 I) ≥ N
+  · have : mkSecret (beToNat (List.take 32 I)) = none := by
+      unfold mkSecret
+      rcases hz with h | h
+      · simp [h]
+      · have : 0 < N := by decide
+        rw [if_pos (by omega)]
+    simp [this, hz, Spec.BIP32.Result.toOption]
+  · have hr : mkSecret (beToNat (List.take 32 I)) = some (beToNat (List.take 32 I)) :=
+      mkSecret_of_range (by omega) (by omega)
+    simp only [hr, Option.bind_some, if_neg hz, Spec.BIP32.Result.toOption, Option.map_some]
+    obtain ⟨k, hk⟩ := Option.isSome_iff_exists.mp
+      (mkPriv_isSome (beToNat (List.take 32 I)) (List.drop 32 I) [0, 0, 0, 0] 0 0 net pv bv hpv hbv)
+    rw [hk]
+    obtain ⟨h1, h2, h3, h4, h5, -⟩ := mkPriv_some_fields hk
+    simp [h1, h2, h3, h4, h5]
+
+end spec
+
+/-! ## the 78-byte codec -/
+
+theorem inSet_xprv_length {v : Bytes}
+    (h : inSet Gen.hdAllTestnetXprvs v = true ∨ inSet Gen.hdAllMainnetXprvs v = true) : v.length = 4 := by
+  simp only [inSet, Gen.hdAllTestnetXprvs, Gen.hdAllMainnetXprvs, List.any_cons, List.any_nil, Bool.or_false,
+    Bool.or_eq_true, beq_iff_eq] at h
+  rcases h with h | h
+  · rcases h with h | h | h | h | h <;> subst h <;> rfl
+  · rcases h with h | h | h | h | h <;> subst h <;> rfl
+
+theorem inSet_xpub_length {v : Bytes}
+    (h : inSet Gen.hdAllTestnetXpubs v = true ∨ inSet Gen.hdAllMainnetXpubs v = true) : v.length = 4 := by
+  simp only [inSet, Gen.hdAllTestnetXpubs, Gen.hdAllMainnetXpubs, List.any_cons, List.any_nil, Bool.or_false,
+    Bool.or_eq_true, beq_iff_eq] at h
+  rcases h with h | h
+  · rcases h with h | h | h | h | h <;> subst h <;> rfl
+  · rcases h with h | h | h | h | h <;> subst h <;> rfl
+
+/-- well-formedness of a private key for the 78-byte serialisation with version `v` -/
+structure PrivSerWF (k : HDPriv) (v : Bytes) : Prop where
+  depth : k.depth ≤ 255
+  child : k.childNumber < 2 ^ 32
+  fp : k.parentFp.length = 4
+  cc : k.chainCode.length = 32
+  sec1 : 1 ≤ k.secret
+  sec2 : k.secret < N
+  ver : inSet Gen.hdAllTestnetXprvs v = true ∨ inSet Gen.hdAllMainnetXprvs v = true
+
+theorem priv_rawSerialize_eq (k : HDPriv) (v : Bytes) (wf : PrivSerWF k v) :
+    k.rawSerialize v = some (v ++ ([UInt8.ofNat k.depth] ++ (k.parentFp ++ (natToBE' 4 k.childNumber ++
+      (k.chainCode ++ (0 :: natToBE' 32 k.secret)))))) := by
+  have hN : N < 256 ^ 32 := by decide
+  have h33 : k.secret < 256 ^ 33 := by
+    have : (256:Nat) ^ 32 < 256 ^ 33 := by decide
+    have := wf.sec2
+    omega
+  have h4 : k.childNumber < 256 ^ 4 := by
+    have : (256:Nat) ^ 4 = 2 ^ 32 := by decide
+    have := wf.child
+    omega
+  have hd : ¬ k.depth > 255 := by have := wf.depth; omega
+  simp only [HDPriv.rawSerialize, intToByte, hd, if_false, Gen.hdPrivSerChildW, Gen.hdPrivSerSecretW, natToBE,
+    h33, h4, if_true, Option.bind_eq_bind, Option.bind_some, Option.pure_def]
+  rw [natToBE'_succ_of_lt (by have := wf.sec2; omega : k.secret < 256 ^ 32)]
+  simp
+
+/-- what HDPrivateKey.parse returns for the serialisation of `k` with version `v`: the same key, the
+    network chosen from the version bytes, `pub_version` the default of that network -/
+def parsedPriv (k : HDPriv) (v : Bytes) : HDPriv :=
+  if inSet Gen.hdAllTestnetXprvs v then
+    { k with network := "testnet", privVersion := v, pubVersion := [4, 53, 135, 207] }
+  else
+    { k with network := "mainnet", privVersion := v, pubVersion := [4, 136, 178, 30] }
+
+theorem priv_rawParse_rawSerialize (k : HDPriv) (v : Bytes) (wf : PrivSerWF k v) :
+    ∃ raw, k.rawSerialize v = some raw ∧ raw.length = 78 ∧ HDPriv.rawParse raw none = some (parsedPriv k v) := by
+  refine ⟨_, priv_rawSerialize_eq k v wf, ?_, ?_⟩
+  · simp [inSet_xprv_length wf.ver, wf.fp, wf.cc]
+  · have hv := inSet_xprv_length wf.ver
+    have hN : N < 256 ^ 32 := by decide
+    have h32 : k.secret < 256 ^ 32 := by have := wf.sec2; omega
+    have h4 : k.childNumber < 256 ^ 4 := by
+      have : (256:Nat) ^ 4 = 2 ^ 32 := by decide
+      have := wf.child
+      omega
+    simp only [HDPriv.rawParse, sread, Gen.hdPrivParVersionW, Gen.hdPrivParDepthW, Gen.hdPrivParFpW,
+      Gen.hdPrivParChildW, Gen.hdPrivParChainW, Gen.hdPrivParZeroW, Gen.hdPrivParSecretW]
+    rw [take_append_len _ _ 4 hv, drop_append_len _ _ 4 hv,
+      take_append_len _ _ 1 rfl, drop_append_len _ _ 1 rfl,
+      take_append_len _ _ 4 wf.fp, drop_append_len _ _ 4 wf.fp,
+      take_append_len _ _ 4 (natToBE'_length 4 _), drop_append_len _ _ 4 (natToBE'_length 4 _),
+      take_append_len _ _ 32 wf.cc, drop_append_len _ _ 32 wf.cc]
+    have hsec : mkSecret k.secret = some k.secret := mkSecret_of_range wf.sec1 wf.sec2
+    have hdep : (UInt8.ofNat k.depth).toNat = k.depth := by
+      rw [u8_ofNat_toNat]; have := wf.depth; omega
+    simp only [List.take, List.drop, byteToInt, List.head?_cons, Option.map_some, hdep,
+      beToNat_natToBE' h4, Option.bind_eq_bind, Option.bind_some]
+    have hz : cmpOp Gen.hdPrivParseZeroOp (UInt8.toNat 0) Gen.hdPrivParseZeroT = false := by decide
+    have ht : List.take 32 (natToBE' 32 k.secret) = natToBE' 32 k.secret := by
+      apply List.take_of_length_le; simp
+    simp only [hz, ht, beToNat_natToBE' h32, hsec, Bool.false_eq_true, if_false, Option.bind_some]
+    unfold parsedPriv netOfVersion
+    by_cases htest : inSet Gen.hdAllTestnetXprvs v = true
+    · simp only [htest, if_true, Option.getD_none, Option.bind_some]
+      simp [mkPriv, mkPub, versionOr, dictGet, Gen.hdXpub, List.lookup]
+    · have hmain : inSet Gen.hdAllMainnetXprvs v = true := by
+        rcases wf.ver with h | h
+        · exact absurd h htest
+        · exact h
+      simp only [htest, hmain, if_true, if_false, Option.bind_some, Bool.false_eq_true]
+      simp [mkPriv, mkPub, versionOr, dictGet, Gen.hdXpub, List.lookup]
+
+theorem parsedPriv_rawSerialize (k : HDPriv) (v w : Bytes) : (parsedPriv k v).rawSerialize w = k.rawSerialize w := by
+  unfold parsedPriv
+  split <;> rfl
+
+/-- the Base58Check round trip (C09: `Buidl.Base58.rawDecodeBase58_encodeBase58Checksum`) -/
+def B58RoundTrip (hash256 : Bytes → Bytes) : Prop :=
+  ∀ (p : Bytes) (s : Base58.Str), Base58.encodeBase58Checksum hash256 p = some s →
+    Base58.rawDecodeBase58 hash256 s = some p
+
+theorem priv_parse_xprv_rel (hash256 : Bytes → Bytes) (hb : B58RoundTrip hash256) (k : HDPriv) (v : Bytes)
+    (wf : PrivSerWF k v) (x : Str) (hx : k.xprv hash256 (some v) = some x) :
+    HDPriv.parse hash256 x = some (parsedPriv k v) := by
+  obtain ⟨raw, hraw, hlen, hparse⟩ := priv_rawParse_rawSerialize k v wf
+  simp only [HDPriv.xprv, Option.getD_some, hraw, Option.bind_eq_bind, Option.bind_some] at hx
+  have hdec := hb raw x hx
+  have hc : cmpOp Gen.hdPrivParseLenOp raw.length Gen.hdPrivParseLenT = false := by
+    rw [hlen]; decide
+  simp [HDPriv.parse, hdec, hc, hparse]
+
+theorem priv_xprv_isSome_rel (hash256 : Bytes → Bytes) (k : HDPriv) (v : Bytes) (wf : PrivSerWF k v) :
+    k.xprv hash256 (some v) = Base58.encodeBase58Checksum hash256 (v ++ ([UInt8.ofNat k.depth] ++ (k.parentFp ++
+      (natToBE' 4 k.childNumber ++ (k.chainCode ++ (0 :: natToBE' 32 k.secret)))))) := by
+  simp [HDPriv.xprv, priv_rawSerialize_eq k v wf]
+
+/-- well-formedness of a public key for the 78-byte serialisation with version `v` -/
+structure PubSerWF (p : HDPub) (v : Bytes) : Prop where
+  depth : p.depth ≤ 255
+  child : p.childNumber < 2 ^ 32
+  fp : p.parentFp.length = 4
+  cc : p.chainCode.length = 32
+  ver : inSet Gen.hdAllTestnetXpubs v = true ∨ inSet Gen.hdAllMainnetXpubs v = true
+
+def parsedPub (p : HDPub) (v : Bytes) : HDPub :=
+  if inSet Gen.hdAllTestnetXpubs v then { p with network := "testnet", pubVersion := v }
+  else { p with network := "mainnet", pubVersion := v }
+
+theorem pub_serialize_eq (p : HDPub) (v : Bytes) (wf : PubSerWF p v) (s : Bytes) (hs : sec p.point true = some s) :
+    p.serialize v = some (v ++ ([UInt8.ofNat p.depth] ++ (p.parentFp ++ (natToBE' 4 p.childNumber ++
+      (p.chainCode ++ s))))) := by
+  have h4 : p.childNumber < 256 ^ 4 := by
+    have : (256:Nat) ^ 4 = 2 ^ 32 := by decide
+    have := wf.child
+    omega
+  have hd : ¬ p.depth > 255 := by have := wf.depth; omega
+  simp [HDPub.serialize, intToByte, hd, Gen.hdPubSerChildW, natToBE, h4, hs]
+
+theorem pub_rawParse_serialize (p : HDPub) (v : Bytes) (wf : PubSerWF p v) (s : Bytes)
+    (hs : sec p.point true = some s) (hlen : s.length = 33) (hpp : parsePoint s = some p.point) :
+    ∃ raw, p.serialize v = some raw ∧ raw.length = 78 ∧ HDPub.rawParse raw none = some (parsedPub p v) := by
+  refine ⟨_, pub_serialize_eq p v wf s hs, ?_, ?_⟩
+  · simp [inSet_xpub_length wf.ver, wf.fp, wf.cc, hlen]
+  · have hv := inSet_xpub_length wf.ver
+    have h4 : p.childNumber < 256 ^ 4 := by
+      have : (256:Nat) ^ 4 = 2 ^ 32 := by decide
+      have := wf.child
+      omega
+    simp only [HDPub.rawParse, sread, Gen.hdPubParVersionW, Gen.hdPubParDepthW, Gen.hdPubParFpW,
+      Gen.hdPubParChildW, Gen.hdPubParChainW, Gen.hdPubParSecW]
+    rw [take_append_len _ _ 4 hv, drop_append_len _ _ 4 hv,
+      take_append_len _ _ 1 rfl, drop_append_len _ _ 1 rfl,
+      take_append_len _ _ 4 wf.fp, drop_append_len _ _ 4 wf.fp,
+      take_append_len _ _ 4 (natToBE'_length 4 _), drop_append_len _ _ 4 (natToBE'_length 4 _),
+      take_append_len _ _ 32 wf.cc, drop_append_len _ _ 32 wf.cc]
+    have hdep : (UInt8.ofNat p.depth).toNat = p.depth := by
+      rw [u8_ofNat_toNat]; have := wf.depth; omega
+    have ht : List.take 33 s = s := by
+      apply List.take_of_length_le; omega
+    simp only [byteToInt, List.head?_cons, Option.map_some, hdep, beToNat_natToBE' h4, Option.bind_eq_bind,
+      Option.bind_some, ht, hpp]
+    unfold parsedPub netOfVersion
+    by_cases htest : inSet Gen.hdAllTestnetXpubs v = true
+    · simp only [htest, if_true, Option.getD_none, Option.bind_some]
+      simp [mkPub, versionOr]
+    · have hmain : inSet Gen.hdAllMainnetXpubs v = true := by
+        rcases wf.ver with h | h
+        · exact absurd h htest
+        · exact h
+      simp only [htest, hmain, if_true, if_false, Option.bind_some, Bool.false_eq_true]
+      simp [mkPub, versionOr]
+
+theorem pub_parse_xpub_rel (hash256 : Bytes → Bytes) (hb : B58RoundTrip hash256) (p : HDPub) (v : Bytes)
+    (wf : PubSerWF p v) (hsec : ∀ s, sec p.point true = some s → s.length = 33 ∧ parsePoint s = some p.point)
+    (x : Str) (hx : p.xpub hash256 (some v) = some x) :
+    HDPub.parse hash256 x = some (parsedPub p v) := by
+  cases hs : sec p.point true with
+  | none => simp [HDPub.xpub, HDPub.serialize, hs] at hx
+  | some s =>
+    obtain ⟨hl, hpp⟩ := hsec s hs
+    obtain ⟨raw, hraw, hlen, hparse⟩ := pub_rawParse_serialize p v wf s hs hl hpp
+    simp only [HDPub.xpub, Option.getD_some, hraw, Option.bind_eq_bind, Option.bind_some] at hx
+    have hdec := hb raw x hx
+    have hc : cmpOp Gen.hdPubParseLenOp raw.length Gen.hdPubParseLenT = false := by
+      rw [hlen]; decide
+    simp [HDPub.parse, hdec, hc, hparse]
+
+theorem parsedPub_serialize (p : HDPub) (v w : Bytes) : (parsedPub p v).serialize w = p.serialize w := by
+  unfold parsedPub
+  split <;> rfl
+
 
 end Buidl.HD
